@@ -165,3 +165,53 @@ def resolve_local(fn: ast.FunctionDef, expr: ast.AST, depth: int = 4) -> ast.AST
 
 def expr_text(fn: ast.FunctionDef, expr: ast.AST) -> str:
     return ast.unparse(resolve_local(fn, expr))
+
+
+def squash(text: str) -> str:
+    import re
+    return re.sub(r"\s+", " ", text).strip()
+
+
+def frag(source: str, fragment: str, locals_: Iterable[str] = ()) -> Optional[dict[str, str]]:
+    """Rename-invariant fragment search.
+
+    `fragment` is written with today's local variable names; every name listed in `locals_` may have been
+    renamed consistently (first occurrence binds, later occurrences must agree; different fragment locals
+    must map to different names).  Both texts are whitespace-squashed.  Returns the renaming or None."""
+    import re
+    src = squash(source)
+    fr = squash(fragment)
+    names = sorted(set(locals_), key=len, reverse=True)
+    if not names:
+        return {} if fr in src else None
+    token = re.compile(r"\b(" + "|".join(re.escape(n) for n in names) + r")\b")
+    out = []
+    pos = 0
+    seen: dict[str, str] = {}
+    for m in token.finditer(fr):
+        # attribute accesses (`x.name`) and keyword names (`name=`) are not locals
+        before = fr[:m.start()]
+        after = fr[m.end():]
+        if before.endswith(".") or (after.startswith("=") and not after.startswith("==")):
+            continue
+        out.append(re.escape(fr[pos:m.start()]))
+        n = m.group(1)
+        g = "L" + str(names.index(n))
+        if n in seen:
+            out.append(f"(?P={g})")
+        else:
+            seen[n] = g
+            out.append(f"(?P<{g}>[A-Za-z_]\\w*)")
+        pos = m.end()
+    out.append(re.escape(fr[pos:]))
+    rx = re.compile("".join(out))
+    for m in rx.finditer(src):
+        binding = {n: m.group(g) for n, g in seen.items()}
+        if len(set(binding.values())) == len(binding):
+            return binding
+    return None
+
+
+def has(fn_or_src, fragment: str, locals_: Iterable[str] = ()) -> bool:
+    src = fn_or_src if isinstance(fn_or_src, str) else ast.unparse(fn_or_src)
+    return frag(src, fragment, locals_) is not None
